@@ -71,8 +71,12 @@ def gen_case(rng, tier):
             extra = gen.rand_node(rng, 2, pool_s=POOL, hostile=False, no_seq=True, kinds=('s',))
             extra = gen.place_flags(rng, extra, p=0.3, vocab=('prio', 'del', 'md'))
             d2['items'].append(['zz', extra])
-            if rng.random() < 0.5:
-                d2['items'].insert(0, ['zq', gen.rand_node(rng, 1, pool_s=POOL, hostile=False, no_seq=True, kinds=('s',))])
+            if rng.random() < 0.6:
+                # a sibling *in front of* the original keys, often protected by a priority of its own
+                zq = gen.rand_node(rng, 1, pool_s=POOL, hostile=False, no_seq=True, kinds=('s',))
+                if rng.random() < 0.6:
+                    zq['prio'] = rng.choice([1, 1, -1])
+                d2['items'].insert(rng.randrange(0, max(1, len(d2['items']) // 2 + 1)), ['zq', zq])
         sib.append(d2)
     style = rng.choice(['flow', 'block'])
     return {'base': [emit.emit(d, style) for d in docs],
